@@ -1,9 +1,9 @@
 SPECIFICATION Spec
 CONSTANTS
-  Alphabet = {32, 9, 11, 127, 1, 97, 45, 47, 233, 12288}
-  N = 5
-  Kind = "line"
-  Prefixes <- PrefixesNone
+  Alphabet = {97, 90, 43, 32, 42, 125}
+  N = 3
+  Kind = "directive"
+  Prefixes <- PrefixesCond
   TRIM_CONTROL = FALSE
 INVARIANTS NonBlankKept CaseOnlyInName Fixpoint NoTrailingBlanks Emit
 CHECK_DEADLOCK FALSE
